@@ -146,6 +146,8 @@ Proof.
     + (* unsubscribe *)
       injection H as <-. apply upd_tbl_wf; [exact W | | apply (wf_fans _ W)].
       apply NoDup_rm. now apply table_nodup.
+    + (* the broker tells its topic: no step of this machine *)
+      injection H as <-. exact W.
 Qed.
 
 Lemma wf_run tr m m' : wf09 m -> m09_run m tr = Some m' -> wf09 m'.
